@@ -33,8 +33,8 @@ CLAIMED = {
          '-1s/0/+1s, in gaps and folds. Mixed-zone lists/periods and zoned absolute TRIGGER are decide witnesses '
          '(recorded findings).',
          'Trusted: Lean kernel; tools/extract.py (add names, datetime names); hand model of TZID derivation and '
-         'vDatetime.to_ical/from_ical tied by correspondence; provider laws not provable (checked); totality of the '
-         'seconds<->calendar conversion over years 1-9999 is tied by correspondence, not proved.',
+         'vDatetime.to_ical/from_ical tied by correspondence; provider laws not provable (checked); the seconds<->calendar conversion is proved total and exact on '
+         'years 1-9999 (Lemmas/Civil.lean: toDays_ofDays, ofSec_isSome_iff).',
          'DESIGN.md 6/C11'),
  'C19': ('Lean 4 proof (composition of the C03 part codecs, C07 escaping and C17 canonsort over the translated vRecur tables) + differential correspondence + dateutil cross-check',
          'Theorems for every rule of the stated domain: from_ical(to_ical r) = the same parts with the same typed values '
